@@ -723,7 +723,7 @@ impl Simulation for C17Sim {
   }
   fn describe(&self) -> Describe {
     Describe {
-      rule: "a case = (generated project: 1-3 rule languages, 1-9 rules per language out of 32 templates incl. utils/constraints/transforms/rewriters/files/ignores, 0-14 source files in nested dirs incl. empty/non-UTF-8/oversize/binary files, optional .ignore; one command out of 10 scan/run forms; a plan = thread count 1-16 x scheduling policy x seeded schedule x 0-3 I/O faults attached to file reads). 20 plans per world. Oracle: output multiset == union of the same command on each discovered file alone; framing per JSON style; exit status; --inspect counts; event-log monitors. non-trivial = the run had >=1 pre-emption (switch away from a runnable thread) or >=1 fired fault; distinct = full projected scheduler event trace (thread, role, yield kind, target) plus command and thread count not seen before".into(),
+      rule: "a case = (generated project: 1-3 rule languages, 1-9 rules per language out of 45 hand-written templates (utils/constraints/transforms/rewriters/files/ignores/expandStart/End, local utils shadowing global ones) plus 0-3 randomly generated rule trees with inter-dependent utilities; 0-14 source files in nested dirs incl. names with spaces and non-ASCII, empty/non-UTF-8/oversize/binary/3MB-but-short files, BOM, CRLF, no trailing newline, 150-600-element lines; optional .ignore; one command out of 10 scan/run forms with optional context lines; a plan = thread count 1-16 x scheduling policy x seeded schedule x 0-3 I/O faults attached to file reads x optional closed stdout). 20 plans per world. Oracle: output multiset == union of the same command on each file alone, over every file the command is meant to process (not only those the walker reported); framing per JSON style; exit status; --inspect counts; event-log monitors. Yield points: guarded hooks plus every lock/atomic of ast-grep's crates (sync shim). non-trivial = the run had >=1 pre-emption or >=1 fired fault; distinct = full projected scheduler event trace plus command and thread count not seen before".into(),
       assumptions: vec![
         "ignore's own thread pool is stubbed: discovery is real code run to completion first, distribution of entries to K simulated walker threads is decided by the scheduler; 'each entry is yielded once' is ignore's contract".into(),
         "code between two yield points runs atomically; every synchronisation object in the pipeline (channel, atomics, file system) has a yield point in front of it".into(),
